@@ -383,6 +383,24 @@ var UnmarshalTargets = []struct {
 	{"*TVar", func() any { return &TVar{} }},
 	{"**T0", func() any { p := &T0{}; return &p }},
 	{"*[]bool", func() any { return &[]bool{} }},
+	// struct types without a name (and two different ones): caches keyed by type name collide
+	{"*struct{A,B,C}", func() any {
+		return &struct {
+			A string `xsel:"name()"`
+			B string `xsel:"."`
+			C int    `xsel:"count(*)"`
+		}{}
+	}},
+	{"*struct{A}", func() any {
+		return &struct {
+			A float64 `xsel:"count(node())"`
+		}{}
+	}},
+	{"*[]struct{X}", func() any {
+		return &[]struct {
+			X string `xsel:"local-name()"`
+		}{}
+	}},
 }
 
 // DoUnmarshal runs Unmarshal under the monitor and renders the filled target.
